@@ -39,6 +39,28 @@ IsPrefixVal(p, f) ==
                    \/ p.pairs[i][2].t \in {"nil", "s"}
          [] OTHER -> FALSE
 
+(* Binary documents deliver an element only when all of it has been read   *)
+(* (a number, a string, an array of several chunks): nothing is "in        *)
+(* progress" but containers.  IsPrefixStrict: as above with every scalar   *)
+(* that is present equal to the full value's.                              *)
+RECURSIVE IsPrefixStrict(_, _)
+IsPrefixStrict(p, f) ==
+  IF p.t = "nil" THEN TRUE
+  ELSE IF p.t # f.t THEN FALSE
+  ELSE CASE p.t = "s" -> p = f
+         [] p.t = "list" ->
+              /\ Len(p.items) <= Len(f.items)
+              /\ \A i \in 1..Len(p.items) :
+                   IF i < Len(p.items) THEN p.items[i] = f.items[i]
+                   ELSE IsPrefixStrict(p.items[i], f.items[i])
+         [] p.t = "map" ->
+              LET bad == {i \in 1..Len(p.pairs) : ~\E j \in 1..Len(f.pairs) : p.pairs[i] = f.pairs[j]} IN
+              /\ Cardinality(bad) <= 1
+              /\ \A i \in bad :
+                   \/ \E j \in 1..Len(f.pairs) : p.pairs[i][1] = f.pairs[j][1] /\ IsPrefixStrict(p.pairs[i][2], f.pairs[j][2])
+                   \/ p.pairs[i][2].t = "nil"
+         [] OTHER -> FALSE
+
 (* GrowsOK(p, c): p is the result at one cut point, c the result at the next (longer) one.  *)
 (* Everything completely decoded in p is still there in c; only the element that was in     *)
 (* progress in p may have changed, and may have vanished if it was a scalar (a text number  *)
